@@ -176,6 +176,14 @@ pub fn run_enc<T: Model>(ctx: &mut Ctx) {
             let l = v.ssz_bytes_len();
             ctx.out.m("len", &l.to_string(), &["len", &d, &val]);
             ctx.out.r("C07", "len", l == bytes.len(), &["bytes_len", "len", &d, &val, &name]);
+            // the predicted size is the size of what every entry point produces
+            let sizes_ok = catch_unwind(AssertUnwindSafe(|| {
+                let mut buf = Vec::new();
+                v.ssz_append(&mut buf);
+                ssz::ssz_encode(&v).len() == l && buf.len() == l && (&v).ssz_bytes_len() == l && Arc::new(v.clone()).ssz_bytes_len() == l && Arc::new(v.clone()).as_ssz_bytes().len() == l
+            }))
+            .unwrap_or(false);
+            ctx.out.r("C07", "len", sizes_ok, &["predicted_size_for_every_entry_point", "len", &d, &val, &name]);
             if <T as Encode>::is_ssz_fixed_len() {
                 ctx.out.r(
                     "C07",
@@ -448,12 +456,17 @@ pub fn run_dec<T: Model>(ctx: &mut Ctx) {
         }
     }
     let mut seen: HashSet<Vec<u8>> = HashSet::new();
+    let mut sample: Vec<Vec<u8>> = Vec::new();
     for b in inputs {
         if !seen.insert(b.clone()) {
             continue;
         }
+        if sample.len() < 24 && (sample.len() < 8 || seen.len() % 37 == 0) {
+            sample.push(b.clone());
+        }
         dec_case::<T>(ctx, &b);
     }
+    threads_agree::<T>(ctx, &sample);
     // long inputs of types the model cannot evaluate quickly: implementation-side oracles only
     ctx.out.capture_m = true;
     for b in big_inputs {
@@ -486,6 +499,17 @@ pub fn dec_case<T: Model>(ctx: &mut Ctx, b: &[u8]) {
             ctx.out.o("C04", "dec", &s, &["dec", &d, &hx]);
         }
         ctx.out.r("C05", "dec", r.is_ok(), &["no_panic", "dec", &d, &hx, &name]);
+        if b.len() <= 4096 {
+            // the same bytes inside a larger allocation, at an odd address and followed by other data: the result
+            // depends on the slice handed in and on nothing around it
+            let k = 1 + (b.len() + b.first().copied().unwrap_or(0) as usize) % 7;
+            let mut big = vec![0xF5u8; k];
+            big.extend_from_slice(&b);
+            big.extend_from_slice(&[0xF5, 0x01, 0xFF, 0x00, 0x04, 0, 0, 0]);
+            let s2 = dec_str::<T>(&big[k..k + b.len()]);
+            ctx.out.r("C04", "dec", s2 == s, &["same_result_wherever_the_slice_lives", "dec", &d, &hx, &name]);
+            ctx.out.r("C05", "dec", s2 != "panic" || s == "panic", &["same_result_wherever_the_slice_lives", "dec", &d, &hx, &name]);
+        }
         if let Some(n) = T::union_variants() {
             // C15: empty input, selectors that name no declared variant and selectors above 127 are rejected
             let must_reject = b.is_empty() || (b[0] as usize) >= n || b[0] > 127;
@@ -617,6 +641,16 @@ pub fn run_coarse_keys(ctx: &mut Ctx) {
             _ => false,
         };
         ctx.out.r("C19", "dec", ok, &["later_duplicate_replaces_earlier_entry", "coarse-set", &hx, &case.to_string()]);
+        {
+            // the same against the model's `collectCmp` (entries compared by the leading integer of their key)
+            let listed: Vec<(u8, Vec<u8>)> = keys.iter().map(|k| (k.id, k.note.clone())).collect();
+            let out = match &got {
+                Ok(Ok(s)) => s.iter().map(|k| (k.id, k.note.clone())).collect::<Vec<_>>().to_val(),
+                Ok(Err(_)) => "err".into(),
+                Err(_) => "panic".into(),
+            };
+            ctx.out.m("decns", &out, &["collect_coarse", "set", &listed.to_val()]);
+        }
         // maps
         let entries: Vec<(CoarseKey, Vec<u8>)> = keys.iter().map(|k| (k.clone(), { let l = g.below(3); g.bytes(l) })).collect();
         let b = entries.as_ssz_bytes();
@@ -634,6 +668,15 @@ pub fn run_coarse_keys(ctx: &mut Ctx) {
             _ => false,
         };
         ctx.out.r("C19", "dec", ok, &["later_duplicate_replaces_earlier_entry", "coarse-map", &hx, &case.to_string()]);
+        {
+            let listed: Vec<((u8, Vec<u8>), Vec<u8>)> = entries.iter().map(|(k, v)| ((k.id, k.note.clone()), v.clone())).collect();
+            let out = match &got {
+                Ok(Ok(m)) => m.iter().map(|(k, v)| ((k.id, k.note.clone()), v.clone())).collect::<Vec<_>>().to_val(),
+                Ok(Err(_)) => "err".into(),
+                Err(_) => "panic".into(),
+            };
+            ctx.out.m("decns", &out, &["collect_coarse", "map", &listed.to_val()]);
+        }
         if let Ok(Ok(m)) = &got {
             // re-encoding the decoded collection is a fixed point
             let e1 = m.as_ssz_bytes();
@@ -641,4 +684,98 @@ pub fn run_coarse_keys(ctx: &mut Ctx) {
             ctx.out.r("C19", "dec", matches!(&again, Ok(e2) if *e2 == e1), &["reencode_fixed_point", "coarse-map", &hx, &case.to_string()]);
         }
     }
+}
+
+
+/// decode, re-encode and metadata computed concurrently on other threads equal what this thread computes
+pub fn threads_agree<T: Model>(ctx: &mut Ctx, sample: &[Vec<u8>]) {
+    let one = |b: &Vec<u8>| -> (String, Option<(Vec<u8>, usize)>, (bool, usize, bool, usize)) {
+        let re = catch_unwind(AssertUnwindSafe(|| T::from_ssz_bytes(b).ok().map(|v| (v.as_ssz_bytes(), v.ssz_bytes_len())))).unwrap_or(None);
+        (dec_str::<T>(b), re, (<T as Encode>::is_ssz_fixed_len(), <T as Encode>::ssz_fixed_len(), <T as Decode>::is_ssz_fixed_len(), <T as Decode>::ssz_fixed_len()))
+    };
+    let here: Vec<_> = sample.iter().map(one).collect();
+    let there: Vec<Vec<_>> = std::thread::scope(|sc| {
+        let hs: Vec<_> = (0..3).map(|_| sc.spawn(|| sample.iter().map(one).collect::<Vec<_>>())).collect();
+        hs.into_iter().map(|h| h.join().unwrap_or_default()).collect()
+    });
+    let d = T::desc();
+    let name = T::rust_name();
+    for (i, b) in sample.iter().enumerate() {
+        let ok = there.iter().all(|t| t.get(i) == Some(&here[i]));
+        ctx.out.r("C04", "dec", ok, &["same_result_on_every_thread", "dec", &d, &hex(b), &name]);
+        ctx.out.r("C01", "dec", ok, &["same_result_on_every_thread", "dec", &d, &hex(b), &name]);
+        ctx.out.r("C02", "dec", ok, &["same_result_on_every_thread", "dec", &d, &hex(b), &name]);
+    }
+}
+
+
+// ---------------------------------------------------------------------------------------------
+// encoding and decoding while a thread shuts down (inside the destructor of a thread-local that was created before
+// the thread first used the library): the same bytes and values as in the middle of the thread's life
+
+struct AtExit(std::sync::mpsc::Sender<Vec<String>>);
+fn exit_probe() -> Vec<String> {
+    type C = (u16, Vec<u8>, Vec<Vec<u16>>, Option<u32>);
+    let v: C = (7, vec![1, 2, 3], vec![vec![], vec![9, 10]], Some(5));
+    let mut out = Vec::new();
+    let mut one = |s: Result<String, Box<dyn std::any::Any + Send>>| out.push(s.unwrap_or_else(|_| "panic".into()));
+    one(catch_unwind(|| hex(&((7u16, vec![1u8, 2, 3], vec![vec![], vec![9u16, 10]], Some(5u32)).as_ssz_bytes()))));
+    one(catch_unwind(|| hex(&ssz::ssz_encode(&(1u8, vec![vec![1u8], vec![]])))));
+    one(catch_unwind(|| { let mut b = vec![0xAA]; (3u8, vec![4u16]).ssz_append(&mut b); hex(&b) }));
+    one(catch_unwind(|| hex(&std::collections::BTreeMap::from([(1u8, vec![2u8]), (0, vec![])]).as_ssz_bytes())));
+    one(catch_unwind(|| hex(&ssz::BitList::<typenum::U16>::with_capacity(9).map(|mut b| { let _ = b.set(8, true); b.as_ssz_bytes() }).unwrap_or_default())));
+    let e = v.as_ssz_bytes();
+    one(catch_unwind(move || format!("{:?}", C::from_ssz_bytes(&e))));
+    one(catch_unwind(|| format!("{:?}", <Vec<Vec<u8>> as Decode>::from_ssz_bytes(&[8, 0, 0, 0, 9, 0, 0, 0, 1, 2]))));
+    one(catch_unwind(|| format!("{:?}", <Option<u16> as Decode>::from_ssz_bytes(&[1, 2, 3]))));
+    out
+}
+impl Drop for AtExit {
+    fn drop(&mut self) {
+        let _ = self.0.send(exit_probe());
+    }
+}
+thread_local! {
+    static AT_EXIT: std::cell::RefCell<Option<AtExit>> = const { std::cell::RefCell::new(None) };
+}
+
+/// runs in a child process (`--thread-exit-probe`), because a failure in a thread-local destructor aborts the process
+pub fn thread_exit_child() {
+    let here = exit_probe();
+    let mut all_ok = true;
+    for round in 0..2 {
+        let (tx, rx) = std::sync::mpsc::channel::<Vec<String>>();
+        let tx_mid = tx.clone();
+        let h = std::thread::spawn(move || {
+            // the guard's thread-local is created before this thread's first call into the library
+            AT_EXIT.with(|c| *c.borrow_mut() = Some(AtExit(tx)));
+            if round == 1 {
+                let _ = tx_mid.send(exit_probe());
+            }
+        });
+        let _ = h.join();
+        let mut got: Vec<Vec<String>> = Vec::new();
+        while let Ok(v) = rx.recv_timeout(std::time::Duration::from_secs(5)) {
+            got.push(v);
+        }
+        let want = if round == 1 { 2 } else { 1 };
+        let ok = got.len() == want && got.iter().all(|g| *g == here);
+        println!("round {} reports {} {}", round, got.len(), if ok { "same" } else { "DIFFERENT" });
+        all_ok &= ok;
+    }
+    println!("{}", if all_ok { "thread-exit-ok" } else { "thread-exit-differs" });
+}
+
+pub fn run_thread_exit(ctx: &mut Ctx) {
+    let out = std::env::current_exe().ok().and_then(|exe| std::process::Command::new(exe).arg("--thread-exit-probe").output().ok());
+    let (ok, tag) = match &out {
+        Some(o) => {
+            let txt = String::from_utf8_lossy(&o.stdout).replace('\n', "; ");
+            (o.status.success() && txt.contains("thread-exit-ok"), format!("child status {:?}: {} {}", o.status.code(), txt, String::from_utf8_lossy(&o.stderr).replace('\n', "; ").chars().take(160).collect::<String>()))
+        }
+        None => (false, "child could not be started".to_string()),
+    };
+    ctx.out.r("C10", "entry", ok, &["same_bytes_while_the_thread_shuts_down", "thread-exit", &tag]);
+    ctx.out.r("C01", "enc", ok, &["same_bytes_while_the_thread_shuts_down", "thread-exit", &tag]);
+    ctx.out.r("C05", "dec", ok, &["same_results_while_the_thread_shuts_down", "thread-exit", &tag]);
 }
